@@ -172,8 +172,14 @@ class Summary:
         self.joins = []              # (guard members, file, line)   a call of join() and the members its enclosing ifs read
         self.callguards = []         # (callee on this, guard members)
         self.callpos = []            # (callee on this, position in accesses, inloop)
+        self.xcallpos = []           # (member, member's class, callee, position in accesses, inloop)  calls on member objects
         self.tailranges = []         # (g, start, end): the body's accesses [start, end) follow its last write of g
         self.rawposts = []           # (targetclass, callee, file, line)  posted functor bound to the raw `this`
+        self.postargs = []           # (targetclass, callee, kind, type, inloop, file, line): every argument bound into a functor
+                                     # handed to runInLoop/queueInLoop/runAfter/runAt/runEvery; kind = val (owned copy: string,
+                                     # shared_ptr, weak_ptr, function, arithmetic, ...) | view (StringPiece) | ptr (raw pointer to
+                                     # memory the caller owns) | ref (std::ref) | this | member (pointer to a member-owned
+                                     # object) | transfer (pointer to an object allocated in this very function)
         self.tails = {}              # member g written here -> members used (locks held) at/after the last write of g
         self.bodies = 0
         self.decl_line = None
@@ -186,6 +192,7 @@ class Analyzer:
         self.globalvars = globalvars or {}
         self.s = None
         self.localfp = {}
+        self.localnew = set()        # ids of local variables initialised with a new-expression
 
     # ---- helpers
     def this_field(self, n):
@@ -304,6 +311,8 @@ class Analyzer:
                         self.s.lockuses.append((m, f_, l_, len(self.s.accesses)))
                         ctx = ctx.but(locks=ctx.locks | {m})
                     continue
+                if v.get("kind") == "VarDecl" and any(x.get("kind") == "CXXNewExpr" for x in walk(v)):
+                    self.localnew.add(v.get("id"))
                 if v.get("kind") == "VarDecl":
                     refs = []
                     for x in walk(v):
@@ -512,6 +521,34 @@ class Analyzer:
         for ch in kids(n):
             self.expr(ch, ctx, "U")
 
+    def bound_kind(self, b):
+        """classification of one argument bound into a posted functor -> (kind, type) ; (None, _) for the method
+        reference itself and for placeholders."""
+        sb = strip(b)
+        t = (b.get("type") or {}).get("desugaredQualType") or qt(b)
+        t0 = qt(b)
+        if "::*)" in t or "::*)" in t0 or "_Placeholder" in t or "_Placeholder" in t0:
+            return None, t0
+        if sb.get("kind") == "UnaryOperator" and sb.get("opcode") == "&" and \
+           (strip(kids(sb)[0]).get("referencedDecl") or {}).get("kind") in ("CXXMethodDecl", "FunctionDecl"):
+            return None, t0
+        if (sb.get("referencedDecl") or {}).get("kind") == "FunctionDecl" or re.search(r"\(\*\)\(|\)\s*\(\*", t):
+            return None, t0                         # plain function (pointer)
+        if sb.get("kind") == "CXXThisExpr":
+            return "this", t0
+        if "StringPiece" in t or "StringArg" in t or "string_view" in t:
+            return "view", t0
+        if "reference_wrapper" in t:
+            return "ref", t0
+        ts = t.strip()
+        if ts.endswith("*") or ts.endswith("*const") or ts.endswith("* const"):
+            if self.root_field(b):
+                return "member", t0
+            if sb.get("kind") == "DeclRefExpr" and (sb.get("referencedDecl") or {}).get("id") in self.localnew:
+                return "transfer", t0
+            return "ptr", t0
+        return "val", t0
+
     def note_register(self, n, ctx, via):
         for (c, m) in self.method_refs(n):
             f, l = loc_of(n)
@@ -541,14 +578,26 @@ class Analyzer:
                 posted += self.method_refs(a)
             for (c, m) in posted:
                 self.s.posts.append((c, m, f, l))
-            # bind(&C::m, this, ...): the functor carries the raw `this` (no shared_from_this / weak pointer): lifetime hazard
+            # what the functor carries: std::bind / makeWeakCallback decay-copy every argument - a std::string, shared_ptr or
+            # value is then OWNED by the functor, a StringPiece / raw pointer / std::ref / `this` is only BORROWED
             for a in args:
                 for x in walk(a):
-                    if x.get("kind") == "CallExpr" and len(kids(x)) >= 3 and \
-                       (strip(kids(x)[0]).get("referencedDecl") or {}).get("name") == "bind" and \
-                       strip(kids(x)[2]).get("kind") == "CXXThisExpr":
-                        for (c, m) in self.method_refs(kids(x)[1]):
-                            self.s.rawposts.append((c, m, f, l))
+                    if x.get("kind") == "CallExpr" and len(kids(x)) >= 2 and \
+                       (strip(kids(x)[0]).get("referencedDecl") or {}).get("name") in ("bind", "makeWeakCallback"):
+                        bargs = kids(x)[1:]
+                        tgt = []
+                        for b in bargs:
+                            tgt += self.method_refs(b)
+                        if not tgt:
+                            continue
+                        (c, m) = tgt[0]
+                        for b in bargs:
+                            kind, ty = self.bound_kind(b)
+                            if kind is None:
+                                continue
+                            self.s.postargs.append((c, m, kind, ty, ctx.inloop, f, l))
+                            if kind == "this":
+                                self.s.rawposts.append((c, m, f, l))
             # arguments other than the method references are evaluated here
             for a in args:
                 self.expr_skip_method_refs(a, ctx)
@@ -560,6 +609,7 @@ class Analyzer:
                 rf = self.root_field(base)
                 if rf:
                     self.s.xcalls.append((rf, self.fields[rf]["cls"], mname, tuple(sorted(ctx.locks)), ctx.inloop, f, l))
+                    self.s.xcallpos.append((rf, self.fields[rf]["cls"], mname, len(self.s.accesses), ctx.inloop))
             return
         # --- call on this
         if sb.get("kind") == "CXXThisExpr":
@@ -580,6 +630,7 @@ class Analyzer:
         rf = self.root_field(base)
         if rf:
             self.s.xcalls.append((rf, self.fields[rf]["cls"], mname, tuple(sorted(ctx.locks)), ctx.inloop, f, l))
+            self.s.xcallpos.append((rf, self.fields[rf]["cls"], mname, len(self.s.accesses), ctx.inloop))
         for a in args:
             self.expr(a, ctx, "U")
 
@@ -594,6 +645,7 @@ class Analyzer:
     def function(self, s, fn):
         self.s = s
         self.localfp = {}
+        self.localnew = set()
         body = None
         ctx = Ctx()
         for ch in kids(fn):
@@ -652,6 +704,7 @@ class Analyzer:
 
 MISSING = []
 SHARED = {}              # class -> derives from enable_shared_from_this
+SHARED_OUT = SHARED
 ALL_METHOD_IDS = {}      # decl id -> (class, name)      (per TU; ids are only compared within one TU)
 EXTERN_METHOD_OWNER = {}
 
@@ -752,25 +805,6 @@ def analyse_class(objs, cname, all_classes):
             if r is not None:
                 res = (res or set()) | set(g) | r
         return res
-    def callee_uses(nm, seen):
-        """members a method of this class touches off the loop thread, through its calls on `this` as well."""
-        s = sums.get(nm)
-        if s is None or nm in seen or len(seen) > 6:
-            return set()
-        r = set(a[0] for a in s.accesses if not a[3]) | set(x for a in s.accesses if not a[3] for x in a[2])
-        for (callee, _pos, inloop) in s.callpos:
-            if not inloop:
-                r |= callee_uses(callee, seen | {nm})
-        return r
-    for nm in order:
-        s = sums[nm]
-        for (g, start, end) in s.tailranges:
-            t = set(s.tails.get(g, []))
-            for (callee, pos, inloop) in s.callpos:
-                if start <= pos <= end and not inloop:
-                    t |= callee_uses(callee, frozenset([nm]))
-            t.discard(g)
-            s.tails[g] = sorted(t)
     out = []
     for nm in order:
         s = sums[nm]
@@ -782,6 +816,54 @@ def analyse_class(objs, cname, all_classes):
             s.join = None if jg is None else sorted(jg)
         out.append(s)
     return fields, out
+
+
+def finish_tails(classes):
+    """second pass over ALL classes: what a method still uses after its last write of a member g includes what the methods
+    it calls afterwards use - on `this` (own members) and on member objects of other summarised classes (their members,
+    qualified `Class::member`) - transitively, off the loop thread only."""
+    allsums = dict(((c, s.name), s) for (c, _f, sums) in classes for s in sums)
+
+    def uses(cls, nm, seen, qualify):
+        s = allsums.get((cls, nm))
+        if s is None or (cls, nm) in seen or len(seen) > 6:
+            return set()
+        q = (lambda x: "%s::%s" % (cls, x)) if qualify else (lambda x: x)
+        r = set(q(a[0]) for a in s.accesses if not a[3]) | set(q(x) for a in s.accesses if not a[3] for x in a[2])
+        for (callee, _pos, inloop) in s.callpos:
+            if not inloop:
+                r |= uses(cls, callee, seen | {(cls, nm)}, qualify)
+        for (_fld, fcls, callee, _pos, inloop) in s.xcallpos:
+            if not inloop and fcls:
+                r |= uses(fcls, callee, seen | {(cls, nm)}, True)
+        return r
+
+    for (cname, _fields, sums) in classes:
+        for s in sums:
+            for (g, start, end) in s.tailranges:
+                t = set(s.tails.get(g, []))
+                for (callee, pos, inloop) in s.callpos:
+                    if start <= pos <= end and not inloop:
+                        t |= uses(cname, callee, frozenset([(cname, s.name)]), False)
+                for (_fld, fcls, callee, pos, inloop) in s.xcallpos:
+                    if start <= pos <= end and not inloop and fcls:
+                        t |= uses(fcls, callee, frozenset([(cname, s.name)]), True)
+                t.discard(g)
+                s.tails[g] = sorted(t)
+    # a destructor destroys by-value members of summarised class types with THEIR synchronisation members
+    fieldsof = dict((c, f) for (c, f, _s) in classes)
+    for (cname, fields, sums) in classes:
+        for s in sums:
+            if s.kind != "dtor" or not s.destroys:
+                continue
+            ef, el = s.destroys[0][1], s.destroys[0][2]
+            for fname, d in fields.items():
+                k = d.get("cls")
+                t = d.get("type", "")
+                if k and k in fieldsof and "*" not in t and "&" not in t and "_ptr<" not in t:
+                    for f2, d2 in fieldsof[k].items():
+                        if d2.get("sync"):
+                            s.destroys.append(("%s::%s" % (k, f2), ef, el))
 
 
 def analyse_logging(objs, relfile):
@@ -848,7 +930,7 @@ LOGGER_OWNER = {}
 
 # ------------------------------------------------------------------ table
 def read_table():
-    t = {"fields": {}, "methods": {}, "waive": [], "exitflags": [], "loopref": {}, "lines": []}
+    t = {"fields": {}, "methods": {}, "waive": [], "exitflags": [], "lifetime_ok": [], "loopref": {}, "lines": []}
     if not os.path.exists(TABLE):
         return t
     for ln, line in enumerate(open(TABLE), 1):
@@ -864,6 +946,8 @@ def read_table():
             t["waive"].append(tuple(w[1:5]))
         elif w[0] == "exitflag":
             t["exitflags"].append((w[1], w[2]))
+        elif w[0] == "lifetime-ok":
+            t["lifetime_ok"].append((w[1], w[2], w[3]))
         else:
             print("MISSING table line %d not understood: %s" % (ln, line))
     return t
@@ -928,6 +1012,14 @@ def emit_coq(classes, table, srchash):
             L.append("  %s" % clist(regs))
             tails = ["(%s, %s)" % (cs(g), clist([cs(x) for x in t])) for g, t in sorted(s.tails.items()) if t]
             L.append("  %s" % clist(tails))
+            pas, seen = [], set()
+            for (c, m, kind, ty, inloop, fl, ln) in s.postargs:
+                key = (c, m, kind, inloop)
+                if key in seen:
+                    continue
+                seen.add(key)
+                pas.append("mkPA %s %s %s %s %d" % (cs(c), cs(m), cs(kind), str(inloop).lower(), ln or 0))
+            L.append("  %s" % clist(pas))
             if s.kind == "dtor":
                 L.append("  (Some (mkDtor %s %s))." % (
                     clist(["(%s, %d%%Z)" % (cs(fn), ln or 0) for (fn, fl, ln) in s.destroys]),
@@ -983,7 +1075,11 @@ def emit_coq(classes, table, srchash):
     L.append("")
     L.append("Definition table_exitflags : list (string * string) :=\n  [ %s ]." % "; ".join("(%s, %s)" % (cs(a), cs(b)) for (a, b) in table["exitflags"]))
     L.append("")
-    L.append("Definition table : ptable := mkTable table_fields table_methods declared_fields table_exitflags.")
+    L.append("Definition shared_classes : list string :=\n  %s." % clist([cs(c) for (c, _f, _s) in classes if SHARED_OUT.get(c)]))
+    L.append("Definition table_lifetime_ok : list (string * string * string) :=\n  [ %s ]." %
+             "; ".join("(%s, %s, %s)" % (cs(a), cs(b), cs(c)) for (a, b, c) in table["lifetime_ok"]))
+    L.append("")
+    L.append("Definition table : ptable := mkTable table_fields table_methods declared_fields table_exitflags shared_classes table_lifetime_ok.")
     L.append("")
     return "\n".join(L) + "\n"
 
@@ -1039,6 +1135,7 @@ def extract():
         if fields is None:
             continue
         classes.append((cname, fields, sums))
+    finish_tails(classes)
     return classes
 
 
@@ -1070,7 +1167,7 @@ def main():
                 "methods": {s.name: {"public": s.public, "kind": s.kind, "check_first": bool(s.check_first), "file": s.file,
                                      "line": s.decl_line, "accesses": s.accesses, "calls": s.calls, "xcalls": s.xcalls,
                                      "posts": s.posts, "registers": s.registers, "lockuses": s.lockuses,
-                                     "destroys": s.destroys, "joins": s.joins, "join": s.join, "rawposts": s.rawposts,
+                                     "destroys": s.destroys, "joins": s.joins, "join": s.join, "rawposts": s.rawposts, "postargs": s.postargs,
                                      "tails": s.tails, "bodies": s.bodies} for s in sums}}
         d = {"v": v, "summary": summ, "missing": MISSING + [l for l in buf.getvalue().splitlines() if l]}
         for old in glob.glob(os.path.join(WORK, "gen_%s_*.json" % hashlib.sha1(REPO.encode()).hexdigest()[:6])):
@@ -1081,8 +1178,14 @@ def main():
         with open(cache + ".tmp%d" % os.getpid(), "w") as f:
             json.dump(d, f)
         os.replace(cache + ".tmp%d" % os.getpid(), cache)
-    write_if_changed(OUT_V, d["v"])
-    write_if_changed(os.path.join(WORK, "summary.json"), json.dumps(d["summary"], indent=1, sort_keys=True))
+    outdir = os.environ.get("C08_OUT_DIR")       # the check evaluates the report in a private directory (no global Coq lock)
+    if outdir:
+        os.makedirs(outdir, exist_ok=True)
+        write_if_changed(os.path.join(outdir, "Gen_C08.v"), d["v"])
+        write_if_changed(os.path.join(outdir, "summary.json"), json.dumps(d["summary"], indent=1, sort_keys=True))
+    else:
+        write_if_changed(OUT_V, d["v"])
+        write_if_changed(os.path.join(WORK, "summary.json"), json.dumps(d["summary"], indent=1, sort_keys=True))
     for m in d["missing"]:
         print(m)
     return 0
